@@ -241,8 +241,8 @@ func genScenario(r *hx.Rng, id int, maxUnits int, cluster bool, refuse string) *
 	if oneSlotReset {
 		sc.mode = "sync"
 		tags = 1
-		if n < 3 {
-			n = 3
+		if n < 4 {
+			n = 4
 		}
 	}
 	for u := 0; u < n; u++ {
@@ -365,14 +365,9 @@ func genScenario(r *hx.Rng, id int, maxUnits int, cluster bool, refuse string) *
 		}
 	}
 	if oneSlotReset {
-		sc.resyncAt = 1 + r.Intn(len(sc.units)-2)
-		sc.snapAt = sc.resyncAt + r.Intn(len(sc.units)-sc.resyncAt)
-		if sc.snapAt <= sc.resyncAt {
-			sc.snapAt = sc.resyncAt + 1
-		}
-		if sc.snapAt >= len(sc.units) {
-			sc.snapAt = len(sc.units) - 1
-		}
+		// at least two units behind the snapshot: the one the reset hits and one that commits after it
+		sc.resyncAt = 1 + r.Intn(len(sc.units)-3)
+		sc.snapAt = sc.resyncAt + 1 + r.Intn(len(sc.units)-2-sc.resyncAt)
 		sc.resetAt = 1 + r.Intn(3)
 		sc.stall = 0
 	}
@@ -833,10 +828,7 @@ func (rn *runner) run(crashAfter int) (died bool, cont bool) {
 		if ended || rn.tg.crashed() || (!refusing && rn.applied() >= want) {
 			break
 		}
-		if rn.resetFired.Load() && time.Until(deadline) > 1500*time.Millisecond {
-			// the run has to notice the reset connection by itself; it is given a moment, then stopped like any other run
-			deadline = time.Now().Add(1500 * time.Millisecond)
-		}
+
 		time.Sleep(300 * time.Microsecond)
 	}
 	if refusing && !ended && !rn.tg.crashed() {
@@ -849,6 +841,7 @@ func (rn *runner) run(crashAfter int) (died bool, cont bool) {
 			// 94 s without an answer: the replay is not going to refuse (it is waiting for more input)
 		}
 	}
+	endedByItself := ended // before the source's stream was closed
 	if !ended && !rn.tg.crashed() {
 		// everything applied: let the run end the way a stopped source ends it (coordinator flush included)
 		feed.CloseWith(io.EOF)
@@ -873,8 +866,8 @@ func (rn *runner) run(crashAfter int) (died bool, cont bool) {
 	if died {
 		rn.tg.revive() // closes whatever is still open
 	}
-	if rn.resetFired.Swap(false) {
-		died = true // the connection was reset under the run: a fault, the run may end with an error
+	if rn.resetFired.Swap(false) && endedByItself {
+		died = true // the connection was reset under the run and the run ended with an error: a fault, the link is started again
 	}
 	rn.waitNoConns()
 	rn.flushRaw()
